@@ -1094,3 +1094,42 @@ class BaseStationsSet(_LinkSet):
 
 
 CONTRACTS = CONTRACTS + [BaseStationsSet]
+
+
+class _EMPartnerGetter(_PartnerGetter):
+    """EM partner getters (receivers / transmitters / tipper base stations): as the electrode getters, with
+    the identifier recorded under the partner's key of metadata['EM Dataset']."""
+    nested = True
+
+    def setup(self, ctx):
+        args, kw = super().setup(ctx)
+        me = args[0]
+        md = me.attrs["metadata"]
+        if md is not None:
+            inner = PDict(dict(md.items))
+            inner.items.pop("Current Electrodes", None)
+            inner.items.pop("Potential Electrodes", None)
+            inner.items["Channels"] = PList([])
+            me.attrs["metadata"] = PDict({"EM Dataset": inner})
+        return args, kw
+
+
+class ReceiversResolved(_EMPartnerGetter):
+    target = "geoh5py/objects/surveys/electromagnetics/base.py::BaseEMSurvey.receivers.fget"
+    field, key = "receivers", "Receivers"
+    self_cls, partner_cls = "AirborneTEMTransmitters", "AirborneTEMReceivers"
+
+
+class TransmittersResolved(_EMPartnerGetter):
+    target = "geoh5py/objects/surveys/electromagnetics/base.py::BaseEMSurvey.transmitters.fget"
+    field, key = "transmitters", "Transmitters"
+    self_cls, partner_cls = "AirborneTEMReceivers", "AirborneTEMTransmitters"
+
+
+class BaseStationsResolved(_EMPartnerGetter):
+    target = "geoh5py/objects/surveys/electromagnetics/tipper.py::TipperSurvey.base_stations.fget"
+    field, key = "base_stations", "Base stations"
+    self_cls, partner_cls = "TipperReceivers", "TipperBaseStations"
+
+
+CONTRACTS = CONTRACTS + [ReceiversResolved, TransmittersResolved, BaseStationsResolved]
